@@ -61,6 +61,17 @@ def Statement_dirty_read_sees_old : Prop :=
   ∀ (r : Remote) (rd : Read), r.autocommit = false → r.dirtyReads = true → r.readOnly = false →
     r.step (.read rd) = (r, readOut r.hook r.ep rd)
 
+/-- what `commit()` sends is the whole queue — every request string queued by every write since
+    the last boundary, in call order and WITH multiplicity (a write issued twice is sent twice):
+    after writes `ws` the queue is the old queue followed by `queuedBy` of each write in order,
+    and `commit` executes exactly that sequence on the endpoint and empties the queue. -/
+def Statement_commit_sends_whole_queue_in_order : Prop :=
+  ∀ (r : Remote) (ws : List Write), r.autocommit = false → r.readOnly = false →
+    (r.run (ws.map Op.write)).edits = r.edits ++ ws.flatMap (queuedBy r.hook) ∧
+    ((r.run (ws.map Op.write)).step .commit).1.ep =
+      applyEdits r.ep (r.edits ++ ws.flatMap (queuedBy r.hook)) ∧
+    ((r.run (ws.map Op.write)).step .commit).1.edits = []
+
 def Statement_commit_idempotent : Prop := ∀ (r : Remote), r.commit.commit = r.commit
 
 /-- a write that `node_to_sparql` refuses (a blank node without the hook) leaves endpoint and
@@ -160,6 +171,22 @@ theorem dirty_read_sees_old : Statement_dirty_read_sees_old := by
   simp [Remote.step, Remote.preRead, hac, hd, hro]
 
 theorem commit_idempotent : Statement_commit_idempotent := commit_commit
+
+theorem commit_sends_whole_queue_in_order : Statement_commit_sends_whole_queue_in_order := by
+  intro r ws hac hro
+  rw [run_writes_edits ws r hac hro]
+  have hro' : ({ r with edits := r.edits ++ ws.flatMap (queuedBy r.hook) } : Remote).readOnly = false := hro
+  refine ⟨rfl, ?_, ?_⟩
+  · rw [step_commit hro', commit_ep]
+  · rw [step_commit hro', commit_edits]
+
+/-- why multiplicity matters: add / remove / add of one triple queues the same request text twice;
+    sending each distinct text once (first occurrence kept) loses the second add -/
+theorem dedup_would_lose_a_write :
+    let es := [.add (1, 10, 20) none, .remove (some 1, some 10, some 20) (.one none),
+               .add (1, 10, 20) none].flatMap (queuedBy false)
+    ((1, 10, 20), none) ∈ (applyEdits ⟨[], []⟩ es).quads ∧
+    ((1, 10, 20), none) ∉ (applyEdits ⟨[], []⟩ es.eraseDups).quads := by decide
 
 theorem refused_write_no_effect : Statement_refused_write_no_effect := by
   intro r w h
